@@ -3,3 +3,5 @@ import AsphaltModel.Config
 import AsphaltModel.Context
 import AsphaltModel.Signal
 import AsphaltModel.Startup
+import AsphaltModel.Waiter
+import AsphaltModel.Tasks
